@@ -69,6 +69,8 @@ type Opts struct {
 	// Inject is an strace -e inject= expression, e.g.
 	// "write,pwrite64,fsync:signal=KILL:when=7".
 	Inject string
+	// SeccompBPF runs strace with --seccomp-bpf (do not combine with Inject).
+	SeccompBPF bool
 	// Log is the strace output file (required when Trace != "").
 	Log string
 	// Stderr receives the child's stderr ("" = discarded into a bounded buffer).
@@ -118,6 +120,11 @@ func Start(o Opts, bin string, args ...string) (*Child, error) {
 			return nil, fmt.Errorf("proc.Start: Log required with Trace")
 		}
 		sa := []string{"-f", "-y", "-xx", "-s", "65536", "-e", "trace=" + o.Trace, "-e", "signal=none", "-o", o.Log}
+		if o.SeccompBPF {
+			// strace stops the tracee only on traced syscalls (much cheaper for
+			// servers); measured here: -e inject has NO effect in this mode.
+			sa = append([]string{"--seccomp-bpf"}, sa...)
+		}
 		if o.Inject != "" {
 			sa = append(sa, "-e", "inject="+o.Inject)
 		}
